@@ -1072,6 +1072,22 @@ fn c01(quick: bool) -> Vec<Harness> {
         cfg.report = vec!["C01"];
         v.push(ops_harness("pool-buffer-reused", "C01", cfg, bounds(d(12, 13), d(2, 3), 4)));
     }
+    {
+        // Every drop order of the Ring, the queue handles, descriptors, pools, buffers and operations in
+        // every state (the C12 world): memory the kernel still uses must survive all of them.
+        use crate::c12::{C12World, scenarios};
+        let sc = std::rc::Rc::new(scenarios(quick));
+        let n = sc.len();
+        let (c1, c2) = (sc.clone(), sc.clone());
+        let b = Bounds { depth: 10, dev: 0, d_all: 10, merge: false, shard: (0, 1), cap_s: 0, shard_depth: 1 };
+        v.push(Harness {
+            name: "drop-permutations".to_string(),
+            describe: json!({"engine": "seqx", "world": "C12World (memory oracle reporting as C01)", "scenarios": n, "drop_orders": "every permutation of the scenario's objects that safe Rust admits"}),
+            bounds: b,
+            run: Box::new(move |b| seqx::explore(&|| C12World::labelled(c1.clone(), "C01"), "C01", b)),
+            replay: Box::new(move |choices| seqx::exec(&|| C12World::labelled(c2.clone(), "C01"), "C01", choices)),
+        });
+    }
     for (a, b) in [(ReadVec, SendZc), (RecvFrom, WriteVectored2), (MultishotRead, Accept), (ReadPool, Statx)] {
         let mut cfg = drop_cfg("C01", vec![a, b]);
         cfg.report = vec!["C01"];
